@@ -657,6 +657,16 @@ func FrameFor(opid uint64, payload string) []byte {
 	return wire.BuildFrame([]wire.Pair{{Name: "_opid", Value: strconv.FormatUint(opid, 10)}}, []byte(payload))
 }
 
+// FrameWithDecoy builds a response frame for opid whose first header is an
+// ordinary user header whose VALUE happens to contain the serialised form of
+// an _opid pair naming decoy (a server echoing a binary request header does
+// that); the frame still belongs to opid.
+func FrameWithDecoy(opid, decoy uint64, payload string) []byte {
+	d := strconv.FormatUint(decoy, 10)
+	v := "\x00\x00\x00\x05_opid" + string([]byte{0, 0, 0, byte(len(d))}) + d
+	return wire.BuildFrame([]wire.Pair{{Name: "echo", Value: v}, {Name: "_opid", Value: strconv.FormatUint(opid, 10)}}, []byte(payload))
+}
+
 // OpidOf extracts the op id of a context.
 func OpidOf(ctx frugal.FContext) uint64 {
 	s, _ := ctx.RequestHeader("_opid")
